@@ -33,7 +33,7 @@ ModelUsed(sc) ==
   LET vin(ch) == IF sc.ch = ch THEN sc.v ELSE IF sc.ch2 = ch THEN sc.v2 ELSE Unset
       a0 == IF vin("init_kw") # Unset THEN vin("init_kw") ELSE vin("init_config")
       a1 == IF vin("assign_config") # Unset THEN vin("assign_config") ELSE a0
-  IN IF vin("parse_kw") # Unset THEN vin("parse_kw") ELSE IF a1 # Unset THEN a1 ELSE vin("mc")
+  IN IF vin("parse_kw") # Unset /\ ~sc.again THEN vin("parse_kw") ELSE IF a1 # Unset THEN a1 ELSE vin("mc")
 Clause(r) ==
   CASE r.kind = "codec" ->
          (IF r.exc # "none" THEN "exception_raised"
